@@ -34,41 +34,49 @@ from core import Eval
 
 PROPERTY = "C18"
 DRIVER = "drv_c18"
-PROPS = ["PartituraModel.Props.C18", "PartituraModel.Props.C18Real"]
+PROPS = ["PartituraModel.Props.C18", "PartituraModel.Props.C18Real", "PartituraModel.Props.C18Pipeline"]
 TRUSTED = [
-    "numpy argsort(kind='mergesort') / lexsort are stable; np.unique = sorted distinct values; np.split",
-    "scipy interp1d linear with fill_value='extrapolate' (segment by searchsorted-left clipped to 1..n-1, knots sorted stably by x); "
-    "kind='zero' evaluated at its own knots returns the knot values",
-    "binary64 arithmetic of the codec and float32 storage of the parameters: the model is exact; encoder outputs are compared "
-    "within 2^-18, decoder outputs (float32 group means and rescaling, binary64 accumulation) within 2^-20 (for standardized: times the cancellation factor of z*std + mean)",
+    "numpy argsort(kind='mergesort') / lexsort are stable; np.unique = sorted distinct values; np.split; np.maximum.accumulate",
+    "scipy interp1d linear with fill_value='extrapolate' (knots sorted stably by x, segment by searchsorted-left clipped to 1..n-1); "
+    "kind='zero' evaluated at its own knots returns the knot values (tempo_by_average samples its step function there)",
+    "binary64 arithmetic of the codec and float32 storage of the parameters: the model is exact; the tempo curves are compared in "
+    "binary64 within 1e-7, encoder outputs within 2^-18, decoder outputs (float32 group means and rescaling, binary64 accumulation) "
+    "within 2^-20 (for standardized: times the cancellation factor of z*std + mean)",
     "log2 / 2**x in binary32/64: the model works with the articulation RATIO and with 2^column for the two logarithmic "
-    "normalisations (the harness exponentiates the stored columns); the log/exp identities are theorems over the reals (Props/C18Real)",
-    "np.std (a square root) enters the model as a parameter; first_order_derivative / tempo_by_derivative enter as the parameter bp "
-    "(any beat-period sequence), checked positive at run time",
+    "normalisations (the harness exponentiates the stored columns); performance_roundtrip takes E(L r) = r for r > 0 as a hypothesis, "
+    "proved for log2 / 2^x over the reals (Props/C18Real exp2_log2)",
+    "np.std (a square root) enters the model as a parameter (StdOk: its square is the variance of the beat periods)",
     "note_array() / compute_note_array() (property C05) provide the score table; PerformedPart.note_array() the performance table",
 ]
 PARTIAL = [
-    "duration_roundtrip_partial / matched_row_duration_partial: performed durations below 0.075 s are replaced by 0.075 s in "
-    "to_matched_score (open finding F-C18-4)",
+    "duration_roundtrip_partial / matched_row_duration_partial / the duration clause of performance_roundtrip: performed durations "
+    "below 0.075 s are replaced by 0.075 s in to_matched_score (open finding F-C18-4)",
     "articulation_grace_partial: the performed duration of grace notes (score duration 0) decodes to 0 (open finding F-C18-2)",
-    "timing_roundtrip takes the beat periods as a parameter (any positive sequence, one per onset group): that tempo_by_average / "
-    "tempo_by_derivative return positive finite values is checked on every case, not proved (monotonize_times, central differences)",
-    "decode_performance's bookkeeping (rows in snote_ids order, stable re-sort by (onset_div, pitch), ids zipped) and the scatter of "
-    "group results to note order are modelled and compared; the theorems are about encode / decodeTime / toMatchedScore / timeKnots",
+    "performance_roundtrip assumes unique score ids (decode_performance looks an id up by its last row, to_matched_score by its "
+    "first) and snote_ids as returned by the encoder; for snote_ids NOT ordered by (onset_div, pitch) decode_performance zips the "
+    "given ids with the re-sorted notes - modelled and compared on hand-made tables, outside the property (its parameters come from "
+    "encode_performance)",
+    "a user-supplied tempo callable is covered by timing_roundtrip for any positive beat-period sequence; positivity is proved for the "
+    "two built-in methods only",
     "float rounding is outside the theorems (exact rationals / reals); it is bounded by the oracle's tolerance on every case",
 ]
 RULE = ("seeded random single-part scores (1-3 voices, chords, ties, grace notes, optional pickup, divisions 1..24 and rare large "
         "divisions) x note-for-note performances on a dyadic grid (free IOIs, tempo-following IOIs, constant tempo, chord spread, "
         "rare non-monotone chord means, rare short notes) x alignments with deletions, insertions, ornaments, matches to unknown ids, "
-        "shuffled order x normalisation x tempo method; plus direct note-array tables with duplicate/missing ids, time-map cases, "
+        "shuffled order x normalisation x tempo method (average, derivative, a user callable with arbitrary positive beat periods); "
+        "plus direct note-array tables with duplicate/missing ids (matched tables, decode_performance with any subset/order of "
+        "snote_ids), direct monotonize_times inputs (increasing, random, plateaus, decreasing, shuffled abscissae), time-map cases, "
         "exhaustive velocities 1..127 and random scale/rescale rows.  distinct = distinct structural key "
         "(kind, #notes, #groups, flags, normalisation, method); non-trivial = at least two onset groups matched")
-LEVEL_TEXT = ("Lean theorems over exact rationals/reals for the timing, velocity, articulation, normalisation, matched-table and "
-              "time-map clauses, tied to the Python code by differential testing of every intermediate table "
-              "(matched score, onset groups, beat period, timing, articulation ratio, normalisation columns, decoded notes, time-map knots).")
+LEVEL_TEXT = ("Lean theorems over exact rationals/reals for the whole pipeline: positivity of both built-in tempo curves for any performed "
+              "onsets, monotonize_times, timing/duration/velocity round trip composed with to_matched_score and decode_performance's "
+              "bookkeeping (performance_roundtrip), normalisations, matched tables and time maps from an alignment; tied to the Python "
+              "code by differential testing of every intermediate table (matched score, onset groups, monotonized times, tempo curve of "
+              "either method in binary64, timing, articulation ratio, normalisation columns, encode_performance as a whole incl. "
+              "snote_ids, decoded notes, time-map knots and both maps).")
 
 NORMS = ["beat_period", "beat_period_log", "beat_period_ratio", "beat_period_ratio_log", "beat_period_standardized"]
-METHODS = ["average", "derivative"]
+METHODS = ["average", "derivative", "callable"]
 T32 = 2.0 ** -20
 CLIP = 60 / 200 * 0.25
 
@@ -211,9 +219,36 @@ def gen_scale(rng):
     return {"k": "scale", "bps": bps}
 
 
+def gen_mono(rng):
+    """direct input of monotonize_times: abscissae (mostly increasing, sometimes shuffled) and arbitrary values"""
+    n = rng.randint(1, 9)
+    xs, x = [], _dy(rng, -64, 64, 16)
+    for _ in range(n):
+        xs.append(x)
+        x += _dy(rng, 1, 48, 16)
+    if rng.random() < 0.3:
+        rng.shuffle(xs)
+    mode = rng.choice(["inc", "rand", "rand", "plateau", "dec"])
+    ss, s = [], _dy(rng, 0, 256, 32)
+    for _ in range(n):
+        ss.append(s)
+        if mode == "inc":
+            s += _dy(rng, 1, 64, 32)
+        elif mode == "rand":
+            s += _dy(rng, -64, 64, 32)
+        elif mode == "plateau":
+            s += rng.choice([0, 0, _dy(rng, 1, 64, 32), -_dy(rng, 1, 64, 32)])
+        else:
+            s -= _dy(rng, 0, 64, 32)
+    return {"k": "mono", "xs": xs, "ss": ss, "mode": mode}
+
+
 def cases(rng, tier):
     for v in range(1, 128):
         yield {"k": "vel", "v": v}
+    for _ in range({"quick": 60, "thorough": 1500, "search": 1500}[tier]):
+        sub = random.Random(rng.getrandbits(48))
+        yield gen_mono(sub)
     n_codec = {"quick": 120, "thorough": 3000, "search": 3000}[tier]
     n_tab = {"quick": 80, "thorough": 1500, "search": 1500}[tier]
     for i in range(n_codec):
@@ -377,12 +412,31 @@ def param_cols(norm, params, k):
     return [params["beat_period_standardized"][k], params["beat_period_mean"][k], params["beat_period_std"][k]]
 
 
+def make_callable(seed):
+    """a user-defined tempo curve (`tempo_smooth=<callable>`): the grouping of tempo_by_average with an arbitrary
+    positive beat period per onset group (multiples of 1/128 s per beat between 1/16 and 2)"""
+    import partitura.musicanalysis.performance_codec as pc
+
+    def tempo_fun(score_onsets, performed_onsets, score_durations, performed_durations, return_onset_idxs=False, **kw):
+        bp, s_on, uidx = pc.tempo_by_average(score_onsets=score_onsets, performed_onsets=performed_onsets,
+                                             score_durations=score_durations, performed_durations=performed_durations,
+                                             return_onset_idxs=True)
+        r = random.Random(seed)
+        bp2 = np.array([r.randint(8, 256) / 128 for _ in range(len(bp))], dtype=float)
+        return (bp2, s_on, uidx) if return_onset_idxs else (bp2, s_on)
+
+    return tempo_fun
+
+
 def eval_codec_combo(ev, part, pp, al, ms, sids, norm, method, info):
     import partitura.musicanalysis.performance_codec as pc
 
     sna = part.note_array()
     pna = pp.note_array()
-    r, e = call(pc.encode_performance, part, pp, copy_al(al), return_u_onset_idx=True, beat_normalization=norm, tempo_smooth=method)
+    smooth = method
+    if method == "callable":
+        smooth = make_callable(len(ms) * 31 + NORMS.index(norm))
+    r, e = call(pc.encode_performance, part, pp, copy_al(al), return_u_onset_idx=True, beat_normalization=norm, tempo_smooth=smooth)
     so, sd = ms["onset"].astype(float), ms["duration"].astype(float)
     po, pd = ms["p_onset"].astype(float), ms["p_duration"].astype(float)
     rows = [str(len(ms))]
@@ -403,7 +457,7 @@ def eval_codec_combo(ev, part, pp, al, ms, sids, norm, method, info):
     ev.requests.append("grp enc " + W.lst(q, ms["onset"]))
     ev.impl.append(group_lists(uidx))
     # beat periods in binary64 (the stored column is their float32 rounding)
-    fun = pc.tempo_by_average if method == "average" else pc.tempo_by_derivative
+    fun = {"average": pc.tempo_by_average, "derivative": pc.tempo_by_derivative}.get(method, smooth)
     bp64 = fun(score_onsets=so, performed_onsets=po, score_durations=sd, performed_durations=pd, return_onset_idxs=True)[0]
     bp64 = np.asarray(bp64, dtype=float)
     std = float(np.std(bp64))
@@ -414,8 +468,13 @@ def eval_codec_combo(ev, part, pp, al, ms, sids, norm, method, info):
     rnorm = norm
     if norm == "beat_period_standardized" and 0 < std < 1e-9 * mean:
         rnorm = "beat_period"  # z = rounding noise / rounding noise: the column is not compared
-    bpt = "-" if method == "average" else W.lst(q, bp64)
-    ev.requests.append("enc %s %s %s %s" % (rnorm, bpt, q(std), " ".join(rows)))
+    if method in ("average", "derivative"):
+        # the tempo curve itself, in binary64 (group means, monotonize_times, difference quotients / central differences)
+        ev.requests.append("tempo %s %s" % (method, " ".join(rows)))
+        ev.impl.append(("@approx", [float(x) for x in bp64], 1e-7))
+        ev.requests.append("encm %s %s %s %s" % (rnorm, method, q(std), " ".join(rows)))
+    else:
+        ev.requests.append("enc %s %s %s %s" % (rnorm, W.lst(q, bp64), q(std), " ".join(rows)))
     art = params["articulation_log"].astype(float)
     cols = []
     for k in range(len(ms)):
@@ -424,6 +483,14 @@ def eval_codec_combo(ev, part, pp, al, ms, sids, norm, method, info):
     ev.impl.append(("@approx", [[float(x) for x in params["beat_period"]], [float(x) for x in params["timing"]],
                                 [float(2.0 ** a) for a in art], cols], 2.0 ** -18))
     info["groups"] = len(uidx)
+    if method in ("average", "derivative"):
+        # the whole of encode_performance from the note arrays and the alignment: snote_ids and every column
+        ev.requests.append("encp %s %s %s %s" % (rnorm, method, q(std), " ".join(score_tokens(sna) + perf_tokens(pna) + al_tokens(al))))
+        ev.impl.append(("@approx", [[str(x) for x in sids2], [float(x) for x in params["beat_period"]],
+                                    [float(x) for x in params["timing"]], [float(2.0 ** a) for a in art], cols,
+                                    [float(x) for x in params["velocity"]]], 2.0 ** -18))
+        if [str(x) for x in sids2] != [str(x) for x in sids]:
+            ev.oracle.append("matched-table: encode_performance returned snote_ids %r, to_matched_score %r" % (list(sids2)[:8], list(sids)[:8]))
     # decode
     r, e = call(pc.decode_performance, part, params, snote_ids=list(sids2), beat_normalization=norm)
     prow = [str(len(ms))]
@@ -504,6 +571,53 @@ def eval_codec_combo(ev, part, pp, al, ms, sids, norm, method, info):
             ev.oracle.append("velocity(%s,%s): note %s decoded %r, performed %r" % (norm, method, idn, ve, p_ve))
 
 
+class _Table(object):
+    """a score-like object that hands out a hand-made note array"""
+
+    def __init__(self, na):
+        self.na = na
+
+    def note_array(self, *a, **kw):
+        return self.na
+
+
+def eval_decode_table(ev, na, d):
+    """decode_performance on a hand-made score table (repeated ids, any order and any subset of snote_ids, unknown
+    ids) with arbitrary parameters: only compared with the model (bookkeeping: row selection, re-sort, id zip)"""
+    import partitura.musicanalysis.performance_codec as pc
+
+    r = random.Random(len(na) * 131 + len(d["al"]) * 17 + len(d["perf"]))
+    ids = [str(x) for x in na["id"]]
+    if not ids:
+        return
+    sel = [r.choice(ids) for _ in range(r.randint(1, len(ids)))] if r.random() < 0.5 else r.sample(ids, r.randint(1, len(ids)))
+    if r.random() < 0.1:
+        sel.insert(r.randrange(len(sel) + 1), "zz9")
+    if r.random() < 0.4:
+        order = np.lexsort((na["pitch"], na["onset_div"]))
+        rank = {}
+        for pos, i in enumerate(order):
+            rank[ids[i]] = pos  # the last row of a repeated id counts, as in decode_performance
+        sel = sorted(sel, key=lambda x: rank.get(x, -1))
+    params = np.zeros(len(sel), dtype=[(nm, "f4") for nm in ("beat_period", "velocity", "timing", "articulation_log")])
+    params["beat_period"] = [r.randint(16, 256) / 128 for _ in sel]
+    params["velocity"] = [r.randint(0, 140) / 127 for _ in sel]
+    params["timing"] = [r.randint(-64, 64) / 256 for _ in sel]
+    params["articulation_log"] = [r.randint(-2, 2) for _ in sel]
+    res, e = call(pc.decode_performance, _Table(na), params, snote_ids=list(sel), beat_normalization="beat_period")
+    prow = [str(len(sel))]
+    ratio32 = pow2(params["articulation_log"])
+    for k in range(len(sel)):
+        prow += [W.s(sel[k]), q(params["timing"][k]), q(ratio32[k]), q(params["velocity"][k]), W.lst(q, [params["beat_period"][k]])]
+    ev.requests.append("dec beat_period %s %s" % (" ".join(score_tokens(na)), " ".join(prow)))
+    if e is not None:
+        ev.impl.append("err")
+        return
+    out = [[str(n["id"]), float(n["note_on"]), float(n["note_off"] - n["note_on"]), int(n["velocity"])] for n in res.notes]
+    out = [[a, (None if not math.isfinite(b) else b), (None if not math.isfinite(c) else c), v] for a, b, c, v in out]
+    ev.impl.append(("@approx", out, T32 * 4))
+
+
 def eval_time_maps(ev, part, pp, al, remove_orn, rng):
     import partitura.musicanalysis.performance_codec as pc
 
@@ -537,8 +651,10 @@ def eval_time_maps(ev, part, pp, al, remove_orn, rng):
         toks += [q(so), q(sd), q(po)]
     ev.requests.append("tm " + " ".join(toks + [W.lst(q, qs)]))
     ev.requests.append("tmp " + " ".join(toks + [W.lst(q, qp)]))
+    # the same from the note arrays and the alignment (get_matched_notes composed with the knots)
+    ev.requests.append("tma " + " ".join([W.b(remove_orn)] + score_tokens(sna) + perf_tokens(pna) + al_tokens(al) + [W.lst(q, qs), W.lst(q, qp)]))
     if e is not None:
-        ev.impl += ["err", "err"]
+        ev.impl += ["err", "err", "err"]
         if len(knots) >= 1:
             ev.oracle.append("time-maps: get_time_maps_from_alignment raised %s: %s" % (type(e).__name__, e))
         return
@@ -551,7 +667,7 @@ def eval_time_maps(ev, part, pp, al, remove_orn, rng):
     vs, e1 = call(lambda: [fl(x) for x in np.atleast_1d(s2p(np.array(qs, dtype=float)))])
     vp, e2 = call(lambda: [fl(x) for x in np.atleast_1d(p2s(np.array(qp, dtype=float)))])
     if e1 is not None or e2 is not None:
-        ev.impl += ["err", "err"]
+        ev.impl += ["err", "err", "err"]
         ev.oracle.append("time-maps: evaluating the maps raised %r" % (e1 or e2,))
         return
     kn = [[float(u), float(m)] for u, m in knots]
@@ -573,6 +689,8 @@ def eval_time_maps(ev, part, pp, al, remove_orn, rng):
     amp = amp * extra(mp, 0.75, 1.5)
     ev.impl.append(("@approx", [kn, vs], T32 * amp_s if math.isfinite(amp_s) else 1e30))
     ev.impl.append(("@approx", vp, T32 * amp if math.isfinite(amp) else 1e30))
+    both = T32 * max(amp, amp_s)
+    ev.impl.append(("@approx", [kn, vs, vp], both if math.isfinite(both) else 1e30))
     # oracle
     n = len(knots)
     for i in range(n):
@@ -612,6 +730,24 @@ def evaluate(d):
             ev.oracle.append("velocity: %d encodes to %r and decodes to %d" % (v, float(x32[0]), back))
         ev.key = "vel%d" % v
         return ev
+    if k == "mono":
+        from partitura.utils.generic import monotonize_times
+
+        xs, ss = np.array(d["xs"], dtype=float), np.array(d["ss"], dtype=float)
+        r, e = call(monotonize_times, ss, x=xs)
+        ev.requests.append("mono %s %s" % (W.lst(q, xs), W.lst(q, ss)))
+        # the points kept: first point and every point above the running maximum (exact comparison of the inputs)
+        kept, m = [], None
+        for xv, sv in zip(d["xs"], d["ss"]):
+            if m is None or sv > m:
+                kept.append([xv, sv])
+                m = sv
+        if e is not None:
+            ev.impl.append("err")
+        else:
+            ev.impl.append(("@approx", [kept, [(float(v) if math.isfinite(v) else None) for v in r[0]]], 1e-9))
+        ev.key = "mono%d%s k%d" % (len(xs), d["mode"], len(kept))
+        return ev
     if k == "scale":
         bps = np.array(d["bps"], dtype=float)
         std = float(np.std(bps))
@@ -639,6 +775,7 @@ def evaluate(d):
         na = score_array(d["score"])
         pna = perf_array(d["perf"])
         eval_tables(ev, na, pna, d["al"], na, pna)
+        eval_decode_table(ev, na, d)
         ev.key = "tables%d/%d/%d" % (len(na), len(pna), len(d["al"]))
         return ev
     # ---- codec
